@@ -64,7 +64,14 @@ func paramObj(f *Fn, idx int) types.Object {
 	return nil
 }
 
-func ruleC13(p *Prog, r *Res) {
+func ruleC13(p *Prog, r *Res) { ruleC13parts(p, r, "C13-b membership-hold", true, true) }
+
+// ruleIndexesMembership is the C13-b clause alone (also claimed by C07-d and C10-b).
+func ruleIndexesMembership(rule string) func(*Prog, *Res) {
+	return func(p *Prog, r *Res) { ruleC13parts(p, r, rule, false, true) }
+}
+
+func ruleC13parts(p *Prog, r *Res, ruleB string, partA, partB bool) {
 	ctx := p.Contexts()
 	lockM := p.Method("manager", "Manager", "lock")
 	copyM := p.Method("manager", "Manager", "getIndexesCopy")
@@ -75,8 +82,9 @@ func ruleC13(p *Prog, r *Res) {
 		return
 	}
 	const ruleA = "C13-a acquire-release"
-	r.Rule(ruleA + ": every lock/getIndexesCopy is a service hold or a loan that is released exactly once on every path")
-	const ruleB = "C13-b membership-hold"
+	if partA {
+		r.Rule(ruleA + ": every lock/getIndexesCopy is a service hold or a loan that is released exactly once on every path")
+	}
 	r.Rule(ruleB + ": adding to Manager.indexes is paired with lock of the same slice; removing with release of exactly the removed sub-slice, before the change")
 
 	isRelease := func(f *Fn, n ast.Node, obj types.Object) bool {
@@ -165,295 +173,250 @@ func ruleC13(p *Prog, r *Res) {
 		r.Check(other == 0, ruleA, key+" not touched off-loop", p.Pos(jf.Node()), "releaser only used inside the completion closure", "the releaser is used on the job goroutine itself; release mutates usedIndexes and must run on the service goroutine")
 	}
 
-	acq := 0
-	for _, f := range p.FnList {
-		if f.Short != "manager" {
-			continue
-		}
-		info := f.Pkg.TypesInfo
-		fl := p.Flow(f)
-		inspectShallow(f.Body(), func(x ast.Node) bool {
-			call, ok := x.(*ast.CallExpr)
-			if !ok {
-				return true
+	if partA {
+		acq := 0
+		for _, f := range p.FnList {
+			if f.Short != "manager" {
+				continue
 			}
-			callee := p.Callee(f.Pkg, call)
-			if callee != lockM && callee != copyM {
-				return true
-			}
-			acq++
-			key := fmt.Sprintf("%s: %s", f.Key(), types.ExprString(call))
-			pt, okpt := fl.PointOf(call)
-			if !okpt {
-				r.Undecided(ruleA, key, p.Pos(call), "acquisition not found in CFG")
-				return true
-			}
-			node := fl.node(pt)
-			switch st := node.(type) {
-			case *ast.ExprStmt:
-				// result discarded: service hold. The locked slice must be what this function adds to Manager.indexes.
-				arg := call.Args[0]
-				added := false
-				inspectShallow(f.Body(), func(y ast.Node) bool {
-					as, ok := y.(*ast.AssignStmt)
-					if !ok || len(as.Lhs) != 1 || !isFieldOf(info, as.Lhs[0], indexesFld) {
-						return true
-					}
-					if isFieldOf(info, arg, indexesFld) {
-						added = true // lock(mgr.indexes) in New: holds everything that was appended
-						return true
-					}
-					ast.Inspect(as.Rhs[0], func(z ast.Node) bool {
-						if e, ok := z.(ast.Expr); ok && identObj(info, arg) != nil && sameObj(info, e, identObj(info, arg)) {
-							added = true
-						}
-						return true
-					})
-					return true
-				})
-				r.Check(added, ruleA, key+" [service hold]", p.Pos(call), "the locked slice is added to Manager.indexes in the same function",
-					"lock() result is discarded but the locked slice is not what this function adds to Manager.indexes: the use-count can never be released")
-			case *ast.ReturnStmt:
-				// wrapper: getIndexesCopy returns lock's result
-				r.Check(f.Key() == "manager.Manager.getIndexesCopy", ruleA, key+" [wrapper]", p.Pos(call), "acquisition wrapper returns the releaser to its caller", "unexpected function returns a releaser; classify it as a wrapper in the checker after reading it")
-			case *ast.AssignStmt:
-				// loan: find the releaser variable (2nd result of getIndexesCopy / result of lock)
-				var relExpr ast.Expr
-				if callee == copyM && len(st.Lhs) == 2 {
-					relExpr = st.Lhs[1]
-				} else if callee == lockM && len(st.Lhs) == 1 {
-					relExpr = st.Lhs[0]
-				}
-				if relExpr == nil {
-					r.Undecided(ruleA, key, p.Pos(call), "cannot identify releaser variable")
+			info := f.Pkg.TypesInfo
+			fl := p.Flow(f)
+			inspectShallow(f.Body(), func(x ast.Node) bool {
+				call, ok := x.(*ast.CallExpr)
+				if !ok {
 					return true
 				}
-				if isFieldOf(info, relExpr, releaserFld) {
-					r.Ok(ruleA, key+" [loan → View.releaser]", p.Pos(call), "stored in View.releaser; released by View.Release (checked separately)")
+				callee := p.Callee(f.Pkg, call)
+				if callee != lockM && callee != copyM {
 					return true
 				}
-				robj := identObj(info, relExpr)
-				if robj == nil {
-					r.Undecided(ruleA, key, p.Pos(call), "releaser stored in an unrecognised place")
+				acq++
+				key := fmt.Sprintf("%s: %s", f.Key(), types.ExprString(call))
+				pt, okpt := fl.PointOf(call)
+				if !okpt {
+					r.Undecided(ruleA, key, p.Pos(call), "acquisition not found in CFG")
 					return true
 				}
-				// every path from here to exit passes a go statement that receives robj
-				isGo := func(n ast.Node) bool {
-					gs, ok := n.(*ast.GoStmt)
-					if !ok {
-						return false
-					}
-					for _, a := range gs.Call.Args {
-						if sameObj(info, a, robj) {
+				node := fl.node(pt)
+				switch st := node.(type) {
+				case *ast.ExprStmt:
+					// result discarded: service hold. The locked slice must be what this function adds to Manager.indexes.
+					arg := call.Args[0]
+					added := false
+					inspectShallow(f.Body(), func(y ast.Node) bool {
+						as, ok := y.(*ast.AssignStmt)
+						if !ok || len(as.Lhs) != 1 || !isFieldOf(info, as.Lhs[0], indexesFld) {
 							return true
 						}
-					}
-					return false
-				}
-				res := fl.ExitAvoiding([]Pt{After(pt)}, isGo)
-				r.Check(!res.Found, ruleA, key+" [loan] handed to a job on every path", p.Pos(call), "every path from the acquisition reaches `go job(..., releaser)`",
-					"a path from the acquisition returns without handing the releaser to a job: the indexes stay locked forever: "+fl.traceString(res))
-				for _, gp := range fl.Find(isGo) {
-					gs := fl.node(gp).(*ast.GoStmt)
-					var jf *Fn
-					if fn := p.Callee(f.Pkg, gs.Call); fn != nil {
-						jf = p.FnOfObj(fn)
-					}
-					if jf == nil {
-						r.Undecided(ruleA, key+" job", p.Pos(gs), "go callee is not a declared function")
-						continue
-					}
-					for i, a := range gs.Call.Args {
-						if sameObj(info, a, robj) {
-							checkJob(jf, i, f.Key())
+						if isFieldOf(info, arg, indexesFld) {
+							added = true // lock(mgr.indexes) in New: holds everything that was appended
+							return true
 						}
+						ast.Inspect(as.Rhs[0], func(z ast.Node) bool {
+							if e, ok := z.(ast.Expr); ok && identObj(info, arg) != nil && sameObj(info, e, identObj(info, arg)) {
+								added = true
+							}
+							return true
+						})
+						return true
+					})
+					r.Check(added, ruleA, key+" [service hold]", p.Pos(call), "the locked slice is added to Manager.indexes in the same function",
+						"lock() result is discarded but the locked slice is not what this function adds to Manager.indexes: the use-count can never be released")
+				case *ast.ReturnStmt:
+					// wrapper: getIndexesCopy returns lock's result
+					r.Check(f.Key() == "manager.Manager.getIndexesCopy", ruleA, key+" [wrapper]", p.Pos(call), "acquisition wrapper returns the releaser to its caller", "unexpected function returns a releaser; classify it as a wrapper in the checker after reading it")
+				case *ast.AssignStmt:
+					// loan: find the releaser variable (2nd result of getIndexesCopy / result of lock)
+					var relExpr ast.Expr
+					if callee == copyM && len(st.Lhs) == 2 {
+						relExpr = st.Lhs[1]
+					} else if callee == lockM && len(st.Lhs) == 1 {
+						relExpr = st.Lhs[0]
 					}
-				}
-			default:
-				r.Undecided(ruleA, key, p.Pos(call), fmt.Sprintf("acquisition in unrecognised statement form %T", node))
-			}
-			return true
-		})
-	}
-	r.Floor(ruleA+" acquisitions", 10, acq)
-	r.Floor(ruleA+" jobs", 4, len(checkedJobs))
-
-	// View.Release releases View.releaser on the loop
-	if f := p.Fn("manager.View.Release"); f != nil {
-		ok := false
-		for _, l := range ctx.postedIn(f) {
-			for _, c := range callsIn(l.Body()) {
-				if p.Callee(l.Pkg, c) == relM {
-					if se, isSel := ast.Unparen(c.Fun).(*ast.SelectorExpr); isSel && isFieldOf(l.Pkg.TypesInfo, se.X, releaserFld) {
-						ok = true
+					if relExpr == nil {
+						r.Undecided(ruleA, key, p.Pos(call), "cannot identify releaser variable")
+						return true
 					}
-				}
-			}
-		}
-		r.Check(ok, ruleA, "manager.View.Release posts release of View.releaser", p.Pos(f.Node()), "release runs in a closure posted on Manager.jobs", "View.Release no longer releases View.releaser on the service goroutine")
-	}
-	// release only runs in LOOP context (it mutates usedIndexes)
-	for _, f := range p.FnList {
-		if f.Short != "manager" {
-			continue
-		}
-		for _, c := range callsIn(f.Body()) {
-			if p.Callee(f.Pkg, c) == relM {
-				r.Check(ctx.OnlyLoopInit(f), "C13-c release-on-loop", "release call in "+f.Key(), p.Pos(c), "context "+ctxString(ctx.Of(f)), "release() is called in context "+ctxString(ctx.Of(f))+"; it mutates Manager.usedIndexes and closes readers, which is only safe on the service goroutine")
-			}
-		}
-	}
-
-	// C13-b: statements assigning Manager.indexes
-	nb := 0
-	for _, f := range p.FnList {
-		if f.Short != "manager" {
-			continue
-		}
-		info := f.Pkg.TypesInfo
-		fl := p.Flow(f)
-		inspectShallow(f.Body(), func(x ast.Node) bool {
-			as, ok := x.(*ast.AssignStmt)
-			if !ok || len(as.Lhs) != 1 || !isFieldOf(info, as.Lhs[0], indexesFld) {
-				return true
-			}
-			nb++
-			key := fmt.Sprintf("%s: %s = …", f.Key(), types.ExprString(as.Lhs[0]))
-			outer, ok := as.Rhs[0].(*ast.CallExpr)
-			if !ok || !isBuiltin(info, outer, "append") {
-				r.Undecided(ruleB, key, p.Pos(as), "Manager.indexes assigned from something other than append(...)")
-				return true
-			}
-			first := outer.Args[0]
-			apt, _ := fl.PointOf(as)
-			if isFieldOf(info, first, indexesFld) {
-				// add: append(mgr.indexes, X...) or append(mgr.indexes, idx)
-				x := outer.Args[1]
-				lockOf := func(n ast.Node) bool {
-					return fl.hasCall(n, func(c *ast.CallExpr) bool {
-						if p.Callee(f.Pkg, c) != lockM {
+					if isFieldOf(info, relExpr, releaserFld) {
+						r.Ok(ruleA, key+" [loan → View.releaser]", p.Pos(call), "stored in View.releaser; released by View.Release (checked separately)")
+						return true
+					}
+					robj := identObj(info, relExpr)
+					if robj == nil {
+						r.Undecided(ruleA, key, p.Pos(call), "releaser stored in an unrecognised place")
+						return true
+					}
+					// every path from here to exit passes a go statement that receives robj
+					isGo := func(n ast.Node) bool {
+						gs, ok := n.(*ast.GoStmt)
+						if !ok {
 							return false
 						}
-						a := c.Args[0]
-						return isFieldOf(info, a, indexesFld) || (identObj(info, x) != nil && sameObj(info, a, identObj(info, x)))
-					})
-				}
-				// every path from the add to a successful exit passes the lock (a constructor's failing return discards the manager)
-				res := fl.search([]Pt{After(apt)}, func(n ast.Node) bool {
-					rs, ok := n.(*ast.ReturnStmt)
-					if !ok {
+						for _, a := range gs.Call.Args {
+							if sameObj(info, a, robj) {
+								return true
+							}
+						}
 						return false
 					}
-					if len(rs.Results) > 0 {
-						last := rs.Results[len(rs.Results)-1]
-						if id, ok := last.(*ast.Ident); !ok || id.Name != "nil" {
-							if t := info.TypeOf(last); t != nil && types.Implements(t, errorIface()) {
-								return false // failing return
+					res := fl.ExitAvoiding([]Pt{After(pt)}, isGo)
+					r.Check(!res.Found, ruleA, key+" [loan] handed to a job on every path", p.Pos(call), "every path from the acquisition reaches `go job(..., releaser)`",
+						"a path from the acquisition returns without handing the releaser to a job: the indexes stay locked forever: "+fl.traceString(res))
+					for _, gp := range fl.Find(isGo) {
+						gs := fl.node(gp).(*ast.GoStmt)
+						var jf *Fn
+						if fn := p.Callee(f.Pkg, gs.Call); fn != nil {
+							jf = p.FnOfObj(fn)
+						}
+						if jf == nil {
+							r.Undecided(ruleA, key+" job", p.Pos(gs), "go callee is not a declared function")
+							continue
+						}
+						for i, a := range gs.Call.Args {
+							if sameObj(info, a, robj) {
+								checkJob(jf, i, f.Key())
 							}
 						}
 					}
-					return true
-				}, lockOf)
-				if res.Found {
-					// the hold may also be taken before the add
-					if pre := fl.Reach([]Pt{fl.Entry()}, func(n ast.Node) bool { return n == ast.Node(as) }, lockOf); !pre.Found {
-						res.Found = false
-					}
+				default:
+					r.Undecided(ruleA, key, p.Pos(call), fmt.Sprintf("acquisition in unrecognised statement form %T", node))
 				}
-				r.Check(!res.Found, ruleB, key+" [add]", p.Pos(as), "the added readers are locked on every successful path (before or after the add)",
-					"readers are added to Manager.indexes on a path that never takes the service hold: the first loan release would close and delete a served file: "+fl.traceString(res))
 				return true
-			}
-			// splice: append(mgr.indexes[:a], append(Y, mgr.indexes[b:]...)...)
-			sl, ok := ast.Unparen(first).(*ast.SliceExpr)
-			if !ok || !isFieldOf(info, sl.X, indexesFld) || sl.Low != nil || sl.High == nil {
-				r.Undecided(ruleB, key, p.Pos(as), "unrecognised form of replacement of Manager.indexes")
-				return true
-			}
-			a := types.ExprString(sl.High)
-			inner, ok := outer.Args[1].(*ast.CallExpr)
-			if !ok || !isBuiltin(info, inner, "append") || len(inner.Args) != 2 {
-				r.Undecided(ruleB, key, p.Pos(as), "unrecognised splice")
-				return true
-			}
-			y := inner.Args[0]
-			tail, ok := ast.Unparen(inner.Args[1]).(*ast.SliceExpr)
-			if !ok || !isFieldOf(info, tail.X, indexesFld) || tail.Low == nil || tail.High != nil {
-				r.Undecided(ruleB, key, p.Pos(as), "unrecognised splice tail")
-				return true
-			}
-			b := types.ExprString(tail.Low)
-			// lock(Y) in same function
-			locked := false
-			for _, c := range callsIn(f.Body()) {
-				if p.Callee(f.Pkg, c) == lockM && identObj(info, y) != nil && sameObj(info, c.Args[0], identObj(info, y)) {
-					locked = true
-				}
-			}
-			r.Check(locked, ruleB, key+" [splice] inserted readers locked", p.Pos(as), "lock("+types.ExprString(y)+") present", "the readers spliced into Manager.indexes are never locked by the service")
-			// release of indexReleaser(mgr.indexes[a:b]) dominating the splice
-			isRelOfRemoved := func(n ast.Node) (bool, string) {
-				// pattern 1: rel := indexReleaser(mgr.indexes[a:b]) ; rel.release(mgr)
-				// we accept the release call whose receiver variable was assigned from a conversion of mgr.indexes[lo:hi]
-				found, bounds := false, ""
-				inspectShallow(n, func(z ast.Node) bool {
-					c, ok := z.(*ast.CallExpr)
-					if !ok || p.Callee(f.Pkg, c) != relM {
-						return true
-					}
-					se := ast.Unparen(c.Fun).(*ast.SelectorExpr)
-					robj := identObj(info, se.X)
-					if robj == nil {
-						return true
-					}
-					inspectShallow(f.Body(), func(w ast.Node) bool {
-						das, ok := w.(*ast.AssignStmt)
-						if !ok || len(das.Lhs) != 1 || !sameObj(info, das.Lhs[0], robj) {
-							return true
-						}
-						conv, ok := das.Rhs[0].(*ast.CallExpr)
-						if !ok || len(conv.Args) != 1 {
-							return true
-						}
-						ssl, ok := ast.Unparen(conv.Args[0]).(*ast.SliceExpr)
-						if !ok || !isFieldOf(info, ssl.X, indexesFld) {
-							return true
-						}
-						lo, hi := "0", "len"
-						if ssl.Low != nil {
-							lo = types.ExprString(ssl.Low)
-						}
-						if ssl.High != nil {
-							hi = types.ExprString(ssl.High)
-						}
-						found, bounds = true, lo+":"+hi
-						return true
-					})
-					return true
-				})
-				return found, bounds
-			}
-			var relBounds string
-			res := fl.Reach([]Pt{fl.Entry()}, func(n ast.Node) bool { return n == ast.Node(as) }, func(n ast.Node) bool {
-				ok, b := isRelOfRemoved(n)
-				if ok {
-					relBounds = b
-				}
-				return ok
 			})
-			if res.Found {
-				r.Bad(ruleB, key+" [splice] removed readers released first", p.Pos(as), "the splice is reachable without first releasing the service hold of the removed run: "+fl.traceString(res))
-			} else {
-				want := a + ":" + b
-				r.Check(relBounds == want, ruleB, key+" [splice] removed readers released first", p.Pos(as), "release of Manager.indexes["+relBounds+"] dominates the splice and has the splice's bounds",
-					"the released sub-slice Manager.indexes["+relBounds+"] differs from the removed run ["+want+"]: readers that stay served lose their hold, or removed ones keep it")
-			}
-			// the release must not happen when the splice does not (same branch): no path from release to exit avoiding the splice
-			return true
-		})
-	}
-	r.Floor(ruleB+" changes of Manager.indexes", 3, nb)
+		}
+		r.Floor(ruleA+" acquisitions", 10, acq)
+		r.Floor(ruleA+" jobs", 4, len(checkedJobs))
 
+		// View.Release releases View.releaser on the loop
+		if f := p.Fn("manager.View.Release"); f != nil {
+			ok := false
+			for _, l := range ctx.postedIn(f) {
+				for _, c := range callsIn(l.Body()) {
+					if p.Callee(l.Pkg, c) == relM {
+						if se, isSel := ast.Unparen(c.Fun).(*ast.SelectorExpr); isSel && isFieldOf(l.Pkg.TypesInfo, se.X, releaserFld) {
+							ok = true
+						}
+					}
+				}
+			}
+			r.Check(ok, ruleA, "manager.View.Release posts release of View.releaser", p.Pos(f.Node()), "release runs in a closure posted on Manager.jobs", "View.Release no longer releases View.releaser on the service goroutine")
+		}
+		// release only runs in LOOP context (it mutates usedIndexes)
+		for _, f := range p.FnList {
+			if f.Short != "manager" {
+				continue
+			}
+			for _, c := range callsIn(f.Body()) {
+				if p.Callee(f.Pkg, c) == relM {
+					r.Check(ctx.OnlyLoopInit(f), "C13-c release-on-loop", "release call in "+f.Key(), p.Pos(c), "context "+ctxString(ctx.Of(f)), "release() is called in context "+ctxString(ctx.Of(f))+"; it mutates Manager.usedIndexes and closes readers, which is only safe on the service goroutine")
+				}
+			}
+		}
+
+	}
+	if partB {
+		// C13-b: statements assigning Manager.indexes
+		nb := 0
+		for _, f := range p.FnList {
+			if f.Short != "manager" {
+				continue
+			}
+			info := f.Pkg.TypesInfo
+			fl := p.Flow(f)
+			inspectShallow(f.Body(), func(x ast.Node) bool {
+				as, ok := x.(*ast.AssignStmt)
+				if !ok || len(as.Lhs) != 1 || !isFieldOf(info, as.Lhs[0], indexesFld) {
+					return true
+				}
+				nb++
+				key := fmt.Sprintf("%s: %s = …", f.Key(), types.ExprString(as.Lhs[0]))
+				outer, ok := as.Rhs[0].(*ast.CallExpr)
+				apt, _ := fl.PointOf(as)
+				if ok && !isBuiltin(info, outer, "append") {
+					// slices.Replace(mgr.indexes, i, j, inserted...)
+					if fn := p.Callee(f.Pkg, outer); fn != nil && fn.FullName() == "slices.Replace" && len(outer.Args) >= 3 && isFieldOf(info, outer.Args[0], indexesFld) {
+						a, b := types.ExprString(outer.Args[1]), types.ExprString(outer.Args[2])
+						var y ast.Expr
+						if len(outer.Args) == 4 {
+							y = outer.Args[3]
+						}
+						checkSplice(p, r, f, fl, as, key, ruleB, a, b, y, lockM, relM, indexesFld)
+						return true
+					}
+				}
+				if !ok || !isBuiltin(info, outer, "append") {
+					r.Undecided(ruleB, key, p.Pos(as), "Manager.indexes assigned from something other than append(...) or slices.Replace(...)")
+					return true
+				}
+				first := outer.Args[0]
+				if isFieldOf(info, first, indexesFld) {
+					// add: append(mgr.indexes, X...) or append(mgr.indexes, idx)
+					x := outer.Args[1]
+					lockOf := func(n ast.Node) bool {
+						return fl.hasCall(n, func(c *ast.CallExpr) bool {
+							if p.Callee(f.Pkg, c) != lockM {
+								return false
+							}
+							a := c.Args[0]
+							return isFieldOf(info, a, indexesFld) || (identObj(info, x) != nil && sameObj(info, a, identObj(info, x)))
+						})
+					}
+					// every path from the add to a successful exit passes the lock (a constructor's failing return discards the manager)
+					res := fl.search([]Pt{After(apt)}, func(n ast.Node) bool {
+						rs, ok := n.(*ast.ReturnStmt)
+						if !ok {
+							return false
+						}
+						if len(rs.Results) > 0 {
+							last := rs.Results[len(rs.Results)-1]
+							if id, ok := last.(*ast.Ident); !ok || id.Name != "nil" {
+								if t := info.TypeOf(last); t != nil && types.Implements(t, errorIface()) {
+									return false // failing return
+								}
+							}
+						}
+						return true
+					}, lockOf)
+					if res.Found {
+						// the hold may also be taken before the add
+						if pre := fl.Reach([]Pt{fl.Entry()}, func(n ast.Node) bool { return n == ast.Node(as) }, lockOf); !pre.Found {
+							res.Found = false
+						}
+					}
+					r.Check(!res.Found, ruleB, key+" [add]", p.Pos(as), "the added readers are locked on every successful path (before or after the add)",
+						"readers are added to Manager.indexes on a path that never takes the service hold: the first loan release would close and delete a served file: "+fl.traceString(res))
+					return true
+				}
+				// splice: append(mgr.indexes[:a], append(Y, mgr.indexes[b:]...)...)
+				sl, ok := ast.Unparen(first).(*ast.SliceExpr)
+				if !ok || !isFieldOf(info, sl.X, indexesFld) || sl.Low != nil || sl.High == nil {
+					r.Undecided(ruleB, key, p.Pos(as), "unrecognised form of replacement of Manager.indexes")
+					return true
+				}
+				a := types.ExprString(sl.High)
+				inner, ok := outer.Args[1].(*ast.CallExpr)
+				if !ok || !isBuiltin(info, inner, "append") || len(inner.Args) != 2 {
+					r.Bad(ruleB, key+" [splice] keeps the readers after the removed run", p.Pos(as), "Manager.indexes is rebuilt from Manager.indexes[:"+a+"] plus new readers only: every reader after the removed run — e.g. one appended by an import that finished during the merge — is dropped from the served list (its streams vanish) while its service hold stays")
+					return true
+				}
+				y := inner.Args[0]
+				tail, ok := ast.Unparen(inner.Args[1]).(*ast.SliceExpr)
+				if !ok || !isFieldOf(info, tail.X, indexesFld) || tail.Low == nil || tail.High != nil {
+					r.Bad(ruleB, key+" [splice] keeps the readers after the removed run", p.Pos(as), "the tail Manager.indexes[b:] is not re-appended after the inserted readers")
+					return true
+				}
+				b := types.ExprString(tail.Low)
+				checkSplice(p, r, f, fl, as, key, ruleB, a, b, y, lockM, relM, indexesFld)
+				// the release must not happen when the splice does not (same branch): no path from release to exit avoiding the splice
+				return true
+			})
+		}
+		r.Floor(ruleB+" changes of Manager.indexes", 3, nb)
+
+	}
+	if !partA {
+		return
+	}
 	// C13-c: views are released by their users (cmd/pkappa2)
 	const ruleC = "C13-c view-released"
 	r.Rule(ruleC + ": every GetView() result is released on all paths")
@@ -600,4 +563,73 @@ func paramIndexDeep(f *Fn, obj types.Object) int {
 		}
 	}
 	return -1
+}
+
+// checkSplice: Manager.indexes[a:b] is replaced by y. Requires lock(y) in the same function and a release of
+// exactly indexReleaser(Manager.indexes[a:b]) that dominates the replacement.
+func checkSplice(p *Prog, r *Res, f *Fn, fl *Flow, as *ast.AssignStmt, key, ruleB, a, b string, y ast.Expr, lockM, relM *types.Func, indexesFld *types.Var) {
+	info := f.Pkg.TypesInfo
+	locked := false
+	if y != nil {
+		for _, c := range callsIn(f.Body()) {
+			if p.Callee(f.Pkg, c) == lockM && identObj(info, y) != nil && sameObj(info, c.Args[0], identObj(info, y)) {
+				locked = true
+			}
+		}
+	}
+	r.Check(locked, ruleB, key+" [splice] inserted readers locked", p.Pos(as), "lock of the inserted readers present", "the readers spliced into Manager.indexes are never locked by the service")
+	isRelOfRemoved := func(n ast.Node) (bool, string) {
+		found, bounds := false, ""
+		inspectShallow(n, func(z ast.Node) bool {
+			c, ok := z.(*ast.CallExpr)
+			if !ok || p.Callee(f.Pkg, c) != relM {
+				return true
+			}
+			se := ast.Unparen(c.Fun).(*ast.SelectorExpr)
+			robj := identObj(info, se.X)
+			if robj == nil {
+				return true
+			}
+			inspectShallow(f.Body(), func(w ast.Node) bool {
+				das, ok := w.(*ast.AssignStmt)
+				if !ok || len(das.Lhs) != 1 || !sameObj(info, das.Lhs[0], robj) {
+					return true
+				}
+				conv, ok := das.Rhs[0].(*ast.CallExpr)
+				if !ok || len(conv.Args) != 1 {
+					return true
+				}
+				ssl, ok := ast.Unparen(conv.Args[0]).(*ast.SliceExpr)
+				if !ok || !isFieldOf(info, ssl.X, indexesFld) {
+					return true
+				}
+				lo, hi := "0", "len(mgr.indexes)"
+				if ssl.Low != nil {
+					lo = types.ExprString(ssl.Low)
+				}
+				if ssl.High != nil {
+					hi = types.ExprString(ssl.High)
+				}
+				found, bounds = true, lo+":"+hi
+				return true
+			})
+			return true
+		})
+		return found, bounds
+	}
+	var relBounds string
+	res := fl.Reach([]Pt{fl.Entry()}, func(n ast.Node) bool { return n == ast.Node(as) }, func(n ast.Node) bool {
+		ok, bb := isRelOfRemoved(n)
+		if ok {
+			relBounds = bb
+		}
+		return ok
+	})
+	if res.Found {
+		r.Bad(ruleB, key+" [splice] removed readers released first", p.Pos(as), "the replacement is reachable without first releasing the service hold of the removed run: "+fl.traceString(res))
+	} else {
+		want := a + ":" + b
+		r.Check(relBounds == want, ruleB, key+" [splice] removed readers released first", p.Pos(as), "release of Manager.indexes["+relBounds+"] dominates the replacement and has its bounds",
+			"the released sub-slice Manager.indexes["+relBounds+"] differs from the removed run ["+want+"]: readers that stay served lose their hold, or removed ones keep it — or readers outside the merged run are dropped from the list")
+	}
 }
